@@ -88,6 +88,20 @@ func (k *KCall) Run() *KResult {
 		rc.States = [][]float64{k.S}
 	}
 	res := RunOn(nil, rc)
+	// frame: a Run call must leave its inputs and parameters as they were (bit for bit). A kernel that accumulates into one of its
+	// input series gives the right answer for this call and a wrong one for every later use of the same series.
+	for i := range k.In {
+		for t := range k.In[i] {
+			if math.Float64bits(res.Inputs[0][i][t]) != math.Float64bits(k.In[i][t]) {
+				return &KResult{Status: fmt.Sprintf("frame inputs-modified:input=%d,t=%d,was=%v,is=%v", i, t, k.In[i][t], res.Inputs[0][i][t])}
+			}
+		}
+	}
+	for i := range k.P {
+		if math.Float64bits(res.Params[i][0]) != math.Float64bits(k.P[i]) {
+			return &KResult{Status: fmt.Sprintf("frame parameters-modified:param=%d,was=%v,is=%v", i, k.P[i], res.Params[i][0])}
+		}
+	}
 	r := &KResult{Status: "ok", Out: res.Outputs[0]}
 	if len(res.States) > 0 {
 		r.S = res.States[0]
